@@ -15,13 +15,6 @@ theorem countLines_flags (cfg : Config) (buf : Bytes) (st : Core) (u : Nat) :
   · simp
   · split <;> simp
 
-theorem allTerm_flatten_getLast {t : Nat} {Z : List Bytes} (h : AllTerm t Z) (hne : Z ≠ []) :
-    Z.flatten.getLast? = some t := by
-  rcases snoc_cases Z with rfl | ⟨init, x, rfl⟩
-  · exact absurd rfl hne
-  · obtain ⟨body, rfl, _⟩ := h x (by simp)
-    simp
-
 /-- what is kept when `roll` cuts at the context start: `max_context + 1` whole lines; on the
 slice side the region since `v` ends with the same lines, preceded by a terminator -/
 theorem roll_far {cfg : Config} {B pre w post pre' w' post' : Bytes} (W : WinOf B pre w post) (W' : WinOf B pre' w' post')
